@@ -282,7 +282,49 @@ type v1script struct {
 	Feat   map[string]int
 }
 
+// genV1Sparse builds scripts whose functions contain exactly ONE kind of widened instruction
+// (only a try/finally, only a `&&`, only a ternary, …), in main or in nested functions that sit
+// behind literal constants in the constant table: converter fast paths and per-constant loops
+// are exercised in isolation.
+func genV1Sparse(r *gen.Rand) v1script {
+	feat := map[string]int{"sparse": 1}
+	bodies := []string{
+		"x := %d\n  try {\n    x = x + p\n  } finally {\n    x = x * 2\n  }\n  return x",
+		"x := %d\n  try {\n    x = 10 / p\n  } catch e {\n    x = -1\n  }\n  return x",
+		"x := %d\n  try {\n    x = 10 / p\n  } catch e {\n    x = -1\n  } finally {\n    x = x + 100\n  }\n  return x",
+		"x := %d\n  return p && x",
+		"x := %d\n  return p || x",
+		"x := %d\n  return p ? x : 7",
+		"x := %d\n  if p {\n    x = x + 1\n  }\n  return x",
+		"x := %d\n  for i := 0; i < p; i++ {\n    x = x + i\n  }\n  return x",
+		"x := %d\n  for _, e in [p, 2] {\n    x = x + e\n  }\n  return x",
+	}
+	var sb strings.Builder
+	sb.WriteString("param (a, b)\n")
+	nf := 1 + r.Intn(3)
+	var calls []string
+	for i := 0; i < nf; i++ {
+		if r.Bool() {
+			// a literal constant ahead of the function constant
+			fmt.Fprintf(&sb, "s%d := \"lit%d\"\n", i, r.Intn(100))
+		}
+		b := bodies[r.Intn(len(bodies))]
+		fmt.Fprintf(&sb, "f%d := func(p) {\n  "+b+"\n}\n", i, r.Intn(50)+1000*i)
+		calls = append(calls, fmt.Sprintf("f%d(%s)", i, []string{"a", "b", "0", "3"}[r.Intn(4)]))
+	}
+	if r.Intn(3) == 0 {
+		// the main function itself contains only a try/finally
+		sb.WriteString("lg := \"\"\ntry {\n  lg = lg + \"t\"\n} finally {\n  lg = lg + \"f\"\n}\n")
+		calls = append(calls, "lg")
+	}
+	sb.WriteString("return [" + strings.Join(calls, ", ") + "]\n")
+	return v1script{Main: sb.String(), Feat: feat}
+}
+
 func genV1Script(r *gen.Rand) v1script {
+	if r.Intn(4) == 0 {
+		return genV1Sparse(r)
+	}
 	p := &v1prog{r: r, feat: map[string]int{}}
 	out := v1script{Feat: p.feat}
 	withMod := r.Intn(5) == 0
